@@ -4,6 +4,7 @@ package main
 
 import (
 	"context"
+	"os"
 
 	"github.com/google/gopacket/layers"
 	"github.com/v-byte-cpu/sx/pkg/scan"
@@ -44,4 +45,10 @@ func newProc(kind string, vpn bool) *lib.Proc {
 	return pt
 }
 
-func main() { lib.Run(newProc, nil) }
+func main() {
+	if len(os.Args) > 1 && os.Args[1] == "-engine" {
+		engineStage(os.Args[2:])
+		return
+	}
+	lib.Run(newProc, nil)
+}
